@@ -153,7 +153,8 @@ fn literals() -> Vec<Case> {
         "min \\x_i + 2 * \\y_j_k - x_i\ns.t.\n    \\x_i >= i\n    \\y_j_k >= x_i + \\x_i\nwhere\n    let i = 5\ndefine\n    \\x_i as Real\n    \\y_j_k as NonNegativeReal\n    x_i as Real",
         "solve\ns.t.\n    a -> b <-> c\n    (a -> b) <-> c\n    not (a and b) or c xor a\n    any { a, b } implies all { b, c }\ndefine\n    a, b, c as Boolean",
         "max 2(x + y) - 3x / 2\ns.t.\n    x - (y - z) <= 4\n    x / (2 * y) >= -1\n    -(x + y) <= -(-2)\n    x * -2 <= 0 * (y / 1)\ndefine\n    x, y, z as Real(-10, 10)",
-"min sum(i in r) { x_i } + len(q) * y\ns.t.\n    x_i >= 1 for i in r\n    sum((v, j) in enumerate(q)) { v * y } <= len(zip(q, q)) + len(union(q, w))\n    sum(j in intersection(q, w)) { j * y } + sum(j in difference(q, w)) { j * y } <= 9\n    y >= 0 for k in range(1, 3, false)\nwhere\n    let r = range(0, 3, true)\n    let h = range(0, 2, false)\n    let q = [1, 2, 3]\n    let w = [2, 5]\n    let n = len(h)\ndefine\n    x_i as Real(0, 5) for i in r\n    y as Real(0, 5)",
+"min x + y + z + w\ns.t.\n    x + y + z + w >= 1\n    z - w <= 2\ndefine\n    x as NonNegativeReal(2)\n    y as Real(-1)\n    z as Real(-3, 4)\n    w as NonNegativeReal(0.5, 6)\n    v as NonNegativeReal(0)",
+        "min sum(i in r) { x_i } + len(q) * y\ns.t.\n    x_i >= 1 for i in r\n    sum((v, j) in enumerate(q)) { v * y } <= len(zip(q, q)) + len(union(q, w))\n    sum(j in intersection(q, w)) { j * y } + sum(j in difference(q, w)) { j * y } <= 9\n    y >= 0 for k in range(1, 3, false)\nwhere\n    let r = range(0, 3, true)\n    let h = range(0, 2, false)\n    let q = [1, 2, 3]\n    let w = [2, 5]\n    let n = len(h)\ndefine\n    x_i as Real(0, 5) for i in r\n    y as Real(0, 5)",
                 "min prod(i in 1..=3) { i } * x + max(i in 0..2) { i * y } - min { x, y }\ns.t.\n    sum(i in 0..2, j in i..3) { c[i][j] * x } <= len(c)\nwhere\n    let c = [[1, 2, 3], [4, 5, 6]]\ndefine\n    x, y as NonNegativeReal",
     ];
     src.iter()
